@@ -1353,7 +1353,7 @@ func TestC13(t *testing.T) {
 			"parked_read_transactions":                         frozenCalls[c13ParkedRead],
 			"parked_calls_on_sinks_that_outlive_the_process":   parkedSinks,
 			"other_dependencies_parked":                        parkedOther,
-			"rule": "at the stop instant (return of the k-th committed write transaction) everything that outlives the process is fingerprinted (commit count of channel.db incl. the nursery store, nursery and witness-cache mirrors, mempool, chain, published/offered/notified sinks, anomalies) and compared at the restart; every call a goroutine of the stopped process still attempts on the database or a harness-owned dependency is parked, never carried out. Counted per sink where the effect would have outlived the process or is read by the oracle; registrations and lookups (which die with the process; how many of them a concurrently running resolver goroutine still attempts is up to the Go scheduler and unobservable) are listed by name only",
+			"rule":                                             "at the stop instant (return of the k-th committed write transaction) everything that outlives the process is fingerprinted (commit count of channel.db incl. the nursery store, nursery and witness-cache mirrors, mempool, chain, published/offered/notified sinks, anomalies) and compared at the restart; every call a goroutine of the stopped process still attempts on the database or a harness-owned dependency is parked, never carried out. Counted per sink where the effect would have outlived the process or is read by the oracle; registrations and lookups (which die with the process; how many of them a concurrently running resolver goroutine still attempts is up to the Go scheduler and unobservable) are listed by name only",
 		},
 	}
 	if len(skipped) > 0 {
